@@ -186,6 +186,7 @@ def a_saveMergeDs(T):
 def _hv_env(extra=()):
     env = ST._base_env(O, MEM, 'ds')
     env["self.engine == 'zarr'"] = (f'({O}.isZarr (some ({O}.selfEngine st)))', 'bool')
+    env["self.engine != 'zarr'"] = (f'(!{O}.isZarr (some ({O}.selfEngine st)))', 'bool')
     env.update(extra)
     return env
 
